@@ -166,6 +166,16 @@ Theorem sdid_wrong_kind_or_closed_rejected : forall c i ncdf open, 0 <= c < 2048
 Proof. exact sdid_wrong_kind_or_closed_rejected_lemma. Qed.
 Print Assumptions sdid_wrong_kind_or_closed_rejected.
 
+(** The table of open SD files (mfhdf file.c; guards and loop conditions regenerated from NC_reset_maxopenfiles,
+    NC_check_id, NC_open, ncclose): whatever NC_reset_maxopenfiles does with a request -- refuse it, shrink, grow, clamp
+    to the system limit -- every file that NC_check_id accepted before is accepted afterwards at the same position
+    with the same object, so no SD id an application holds stops working or changes meaning. *)
+Theorem ct_reset_keeps_open_files : forall t req lim p o,
+  ct_check (Z.of_nat p) t = Some o ->
+  ct_check (Z.of_nat p) (snd (ct_reset req lim t)) = Some o.
+Proof. exact ct_reset_keeps_open_files_lemma. Qed.
+Print Assumptions ct_reset_keeps_open_files.
+
 (** Non-vacuity: the hypotheses are met by concrete non-trivial states / histories. *)
 Example init_state_related : Rel m_init s_init.
 Proof. exact Rel_init. Qed.
@@ -199,6 +209,14 @@ Example close_refused_state :
   file_of 0 st = Some (0, mkF 1 1 1 1) /\
   fst (f_run [FClose 0; FEnd 1; FClose 0] st) = [RFail; ROk 0; ROk 0] /\
   f_quiescent (snd (f_run [FClose 0; FEnd 1; FClose 0] st)) = true.
+Proof. vm_compute. repeat split. Qed.
+Example ct_boundary_request :
+  (* three files opened, the first two closed: the open file sits at position 2 while one file is open; the request
+     for a table of exactly 2 entries (> open files, = highest position) is refused, 3 is accepted *)
+  let run := fun ops => fold_left (fun t o => snd (ct_step 20000 o t)) ops ct_init in
+  let t := run [CTOpen 7; CTOpen 8; CTOpen 9; CTClose 0; CTClose 1] in
+  ct_check 2 t = Some 9 /\ fst (ct_reset 2 20000 t) = 32 /\ fst (ct_reset 3 20000 t) = 3 /\
+  ct_check 2 (snd (ct_reset 3 20000 t)) = Some 9 /\ ct_check 2 (snd (ct_reset 2 20000 t)) = Some 9.
 Proof. vm_compute. repeat split. Qed.
 Example cache_size : ATOM_CACHE_SIZE = 4.
 Proof. exact cache_size_is_4. Qed.
